@@ -24,9 +24,44 @@ def handler_table(ctx):
     for n in A.walk(ft.node):
         if isinstance(n, ast.Return) and isinstance(n.value, ast.Dict):
             table = n.value
-    if table is None:
-        raise AnalysisError("_request_handlers no longer returns a dict literal")
     conn = ctx.cls(K.CONN)
+    if table is None:
+        # a table kept elsewhere (a module-level sequence of (code, method name) pairs, ...): evaluate the function on a model
+        # class whose attributes are named markers; pairs of a folded sequence keep their duplicates
+        from .. import miniinterp as MI
+        consts_mod = ctx.module("rpyc.core.consts")
+        vals = {}
+        for nm_ in consts_mod.toplevel:
+            v_ = ctx.try_fold(ast.Name(id=nm_, ctx=ast.Load()), consts_mod)
+            if v_ is not None:
+                vals["consts." + nm_] = v_
+
+        class _Cls:
+            mi_native = True
+
+            def __getattr__(self, name):
+                if name.startswith("mi_") or name.startswith("__"):
+                    raise AttributeError(name)
+                return ("method", name)
+        rows_ = None
+        for n in A.walk(ft.node):
+            if isinstance(n, ast.Return) and isinstance(n.value, ast.DictComp) and len(n.value.generators) == 1:
+                seq = ctx.try_fold(n.value.generators[0].iter, ft.module)
+                if isinstance(seq, (tuple, list)) and all(isinstance(x, tuple) and len(x) == 2 and isinstance(x[1], str) for x in seq):
+                    rows_ = [(x[0], x[1]) for x in seq]
+                    table = n.value
+        if rows_ is None:
+            extra = {"__values__": vals}
+            extra["__global_lookup__"] = K.module_function_lookup(ctx, ft.module, extra)
+            try:
+                got = MI.call_function(ft.node, [_Cls()], extra)
+            except (MI.Raised, AnalysisError) as e_:
+                raise AnalysisError("_request_handlers cannot be evaluated to a table (%s)" % e_)
+            if not isinstance(got, dict) or not all(isinstance(v_, tuple) and v_[:1] == ("method",) for v_ in got.values()):
+                raise AnalysisError("_request_handlers does not evaluate to a {code: method} table")
+            rows_ = [(k_, v_[1]) for k_, v_ in got.items()]
+            table = ft.node
+        return table, [(hid, name, conn.methods.get(name), table) for hid, name in rows_]
     out = []
     for k, v in zip(table.keys, table.values):
         hid = ctx.try_fold(k)
